@@ -25,6 +25,58 @@ def run_config(chk, tier, cfgname):
     common.protocol_rows(chk, prog, "protocol-on-unwind", ["collect_debt", "finish_marking", "finish_cycle"],
                          per_method=False, aspects=("safety", "walk"))
     typestate.report_automaton(chk, ["S6", "S7"])
+    # the switch to the Sweep phase runs client code when the `tracing` feature is on (the subscriber); if that
+    # panics and the panic is caught, the arena must not be left Sweeping without a sweep cursor (the rest of the call
+    # and the next cycle would sweep nothing, survivors stay Black, the cycle after frees what they point to): the
+    # assignment of the cursor dominates the switch
+    from gcv import cfg as _cfg
+    from gcv.gcmodel import phase_name as _phase_name
+    si = T.m.ctx_index("sweep")
+    n_sw = 0
+    for d_raw, key in prog.seed.items():
+        if "context::" not in d_raw:
+            continue
+        b = prog.bodies[key]
+        sw_blocks = []
+        for bi, bb in enumerate(b["blocks"]):
+            t = bb["t"]
+            if t and t["k"] == "call" and not t["f"].get("indirect") and \
+                    __import__("gcv.model", fromlist=["norm"]).norm((t["f"].get("resolved") or t["f"]).get("def", "")) == "context::PhaseGuard::switch" \
+                    and len(t["args"]) > 1:
+                # the phase argument: a constant, or a local assigned a constant / a variant aggregate just before
+                arg = t["args"][1]
+                cands = [arg]
+                if arg.get("k") in ("copy", "move") and not arg["p"]["p"]:
+                    for bb2 in b["blocks"]:
+                        for s_ in bb2["s"]:
+                            if s_["k"] == "assign" and s_["p"]["l"] == arg["p"]["l"] and not s_["p"]["p"]:
+                                if s_["r"]["k"] == "use":
+                                    cands.append(s_["r"]["o"])
+                                elif s_["r"]["k"] == "agg" and s_["r"]["ak"].get("def") == "context::Phase":
+                                    cands.append({"k": "const", "v": {"variant": s_["r"]["ak"].get("variant", s_["r"]["ak"].get("idx"))}})
+                nm = None
+                for cnd in cands:
+                    v = cnd.get("v", {}) if cnd.get("k") == "const" else {}
+                    try:
+                        if v.get("variant") is not None:
+                            nm = prog.all_adts["context::Phase"]["variants"][v["variant"]]["name"]
+                    except (KeyError, IndexError, TypeError):
+                        pass
+                if nm == "Sweep":
+                    sw_blocks.append(bi)
+        if not sw_blocks:
+            continue
+        assigns = [bi for bi, bb in enumerate(b["blocks"]) for s_ in bb["s"]
+                   if s_["k"] == "assign" and s_["p"]["p"] and s_["p"]["p"][-1] == ["f", si]]
+        dom = _cfg.dominators(b, unwind=False)
+        for sb in sw_blocks:
+            n_sw += 1
+            ok = any(ab in dom[sb] for ab in assigns)
+            chk.inst("sweep-cursor-set-before-phase-switch", "%s@bb%d" % (__import__("gcv.model", fromlist=["norm"]).norm(d_raw), sb), ok,
+                     detail="the phase is switched to Sweep before the sweep cursor is assigned: a panic out of the switch (a "
+                            "tracing subscriber) caught by the client leaves the arena Sweeping with no cursor",
+                     loc="%s:%s" % (b["span"]["f"], b["blocks"][sb]["t"].get("l")))
+    chk.floor("switches-to-sweep", n_sw, 1)
     from gcv import rules_ctor
     rules_ctor.run(chk, prog, T)
     from gcv import rules_builder
